@@ -469,11 +469,25 @@ var pieces = func() []string {
 	return p
 }()
 
+func genIndent(t *rapid.T, sb *strings.Builder) {
+	n := rapid.IntRange(0, 10).Draw(t, "nindent")
+	for i := 0; i < n; i++ {
+		sb.WriteString(rapid.SampledFrom([]string{" ", " ", " ", "  ", "    ", "\t", "\t", "\r"}).Draw(t, "ws"))
+	}
+}
+
 func genSource(t *rapid.T) string {
 	kws := allKeywordSpellings()
 	n := rapid.IntRange(0, 60).Draw(t, "n")
 	var sb strings.Builder
+	lines := rapid.Bool().Draw(t, "line-structured")
 	for i := 0; i < n; i++ {
+		if lines && (i == 0 || rapid.IntRange(0, 4).Draw(t, "newline") == 0) {
+			if i > 0 {
+				sb.WriteString("\n")
+			}
+			genIndent(t, &sb)
+		}
 		switch rapid.IntRange(0, 9).Draw(t, "kind") {
 		case 0, 1:
 			sb.WriteString(rapid.SampledFrom(kws).Draw(t, "kw"))
@@ -632,6 +646,39 @@ func TestExhaustive(t *testing.T) {
 	}
 	rec(0, L, "normal")
 	rec(0, LA, "alias")
+	// all leading-whitespace strings up to length 8 over {space, tab, CR}, at the start of the text and of a later line
+	ws := []rune{' ', '\t', '\r'}
+	var wrec func(depth int) bool
+	wrec = func(depth int) bool {
+		idx++
+		if idx%n == k {
+			for _, src := range []string{string(buf) + "x y", "a\n" + string(buf) + "wenn\n  b"} {
+				c := Case{Src: []byte(src), Mode: "normal"}
+				f, feats := judge(c)
+				if f != nil {
+					if !vf.Report(t, f) {
+						return false
+					}
+				} else {
+					record(c, feats)
+				}
+			}
+		}
+		if depth == 8 {
+			return true
+		}
+		for _, r := range ws {
+			buf = append(buf, r)
+			ok := wrec(depth + 1)
+			buf = buf[:len(buf)-1]
+			if !ok {
+				return false
+			}
+		}
+		return true
+	}
+	buf = buf[:0]
+	wrec(0)
 	vf.SetExhaustive(false) // the exhaustive part is one of several generators
 	vf.SetExtra("exhaustive_part", fmt.Sprintf("all strings of length <= %d (normal mode) and <= %d (alias mode) over the %d-symbol class alphabet %q", L, LA, len(exhaustAlphabet), string(exhaustAlphabet)))
 }
